@@ -235,7 +235,7 @@ class C13(Prop):
     assumptions = ["interleavings are explored at Python function-call granularity (PY_START events of code objects under "
                    "flowmark/ and marko/), the granularity the property states; CPython with the GIL",
                    "the reference for a call is its result in another process (reversed order / alone)"]
-    deciding = {"history": {"quick": 600, "thorough": 6000}, "schedule": {"quick": 100, "thorough": 1000}}
+    deciding = {"history": {"quick": 600, "thorough": 6000}, "schedule": {"quick": 100, "thorough": 1000}, "reuse": {"quick": 500, "thorough": 5000}}
     soft_timeout = 600.0
     hard_timeout = 1500.0
 
@@ -247,6 +247,8 @@ class C13(Prop):
             yield {"kind": "schedule", "seed": r.getrandbits(40), "threads": r.choice([2, 3, 4]), "jobs": r.randint(4, 6),
                    "schedules": 6 if tier == "quick" else 12, "p": r.choice([0.005, 0.02, 0.05])}
         yield {"kind": "stress", "seed": r.getrandbits(40), "threads": 8, "jobs": 6}
+        for _ in range(2 if tier == "quick" else 12):
+            yield {"kind": "reuse", "seed": r.getrandbits(40), "n": r.randint(12, 24)}
         for _ in range(1 if tier == "quick" else 6):
             yield {"kind": "preempt", "seed": r.getrandbits(40), "max_points": 60 if tier == "quick" else 400}
 
@@ -315,6 +317,39 @@ class C13(Prop):
                               {"index": i, "doc_head": jobs[i][0][:120], "in_sequence": here[i][:200], "alone": b[:200]})
         col.hist("history_len", len(jobs))
         col.sample({"kind": "history", "seed": case["seed"], "calls": len(jobs), "first_doc_head": jobs[0][0][:80]})
+
+    def _check_reuse(self, case, col):
+        """One flowmark_markdown() object (public: flowmark.__all__) formats a sequence of documents, parse + render each: every
+        result equals what a fresh object gives for that document alone, in this order and in the reverse order."""
+        from flowmark import flowmark_markdown
+        r = random.Random(case["seed"])
+        docs = [t for t, _o in make_jobs(r, case["n"])]
+        # pairs that share destinations / labels / footnote names with different definitions
+        docs += ["[one]: http://shared.example/x \"Title\"\n\nSee [text](http://shared.example/x \"Title\") and [one].\n",
+                 "A [link](http://shared.example/x \"Title\") here, no definitions in this document.\n",
+                 "[one]: http://other.example/y\n\nSee [text](http://shared.example/x \"Title\") and [one] and [t](http://other.example/y).\n"]
+        r.shuffle(docs)
+        w = r.choice([30, 88])
+        mk = lambda: flowmark_markdown(fm.line_wrap_to_width(w, is_markdown=True))  # noqa: E731
+        fresh = []
+        for t in docs:
+            m = mk()
+            fresh.append(fm.call(lambda: m.render(m.parse(t))))
+        for order in (list(range(len(docs))), list(reversed(range(len(docs))))):
+            shared = mk()
+            for i in order:
+                col.case()
+                col.mon("reuse")
+                got = fm.call(lambda: shared.render(shared.parse(docs[i])))
+                a = got if isinstance(got, str) else "RAISED:" + got.kind
+                b = fresh[i] if isinstance(fresh[i], str) else "RAISED:" + fresh[i].kind
+                if a != b:
+                    d = next((k for k, (x, y) in enumerate(zip(a.split("\n"), b.split("\n"))) if x != y), None)
+                    col.violation("history", "C13/reuse/one-markdown-object-gives-another-result-than-a-fresh-one", dict(case, index=i),
+                                  {"doc_head": docs[i][:160], "line": d, "reused": a.split("\n")[d][:160] if d is not None else a[-80:],
+                                   "fresh": b.split("\n")[d][:160] if d is not None else b[-80:]})
+                    return
+        col.distinct("reuse", case["seed"])
 
     def _check_schedule(self, case, col):
         if self.mon is None:
